@@ -46,7 +46,7 @@ type KVReq struct {
 type CheckReq struct {
 	Node     string `json:"node"`
 	ID       string `json:"id"`
-	Status   int    `json:"status"` // 0 passing 1 warning 2 critical
+	Status   int    `json:"status"` // 0 passing 1 warning 2 critical 3 omitted ("")
 	Service  string `json:"service"`
 	SessType bool   `json:"sess_type"`
 	SessName string `json:"sess_name"`
@@ -250,7 +250,11 @@ func dirEnt(q *KVReq) structs.DirEntry {
 var statusNames = []string{api.HealthPassing, api.HealthWarning, api.HealthCritical}
 
 func healthCheck(c *CheckReq) *structs.HealthCheck {
-	hc := &structs.HealthCheck{Node: c.Node, CheckID: types.CheckID(c.ID), Name: "chk", Status: statusNames[c.Status],
+	status := ""
+	if c.Status < len(statusNames) {
+		status = statusNames[c.Status]
+	}
+	hc := &structs.HealthCheck{Node: c.Node, CheckID: types.CheckID(c.ID), Name: "chk", Status: status,
 		ServiceID: c.Service, Output: fmt.Sprintf("out%d", c.Output),
 		RaftIndex: structs.RaftIndex{ModifyIndex: c.Index}}
 	if c.SessType {
@@ -661,6 +665,9 @@ var kvTxnVerbs = []string{"set", "cas", "delete", "delete-cas", "delete-tree", "
 
 func (g *gen) checkReq(node string) CheckReq {
 	c := CheckReq{Node: node, ID: g.pick(checkIDs), Status: g.rng.Intn(3), Output: g.rng.Intn(2)}
+	if g.rng.Intn(8) == 0 {
+		c.Status = 3 // status omitted: the store defaults it to critical
+	}
 	if g.rng.Intn(3) == 0 {
 		c.Service = g.pick(svcIDs)
 	}
@@ -904,6 +911,43 @@ func oracleLocks(d *Dump) []string {
 	return out
 }
 
+// C04: a live session's node exists, every check it is bound to exists, is linked to it and is not
+// critical (a check of type "session" may have been critical when the session was created) --
+// i.e. each of the triggers that must end a session has ended it.
+func oracleSessionValid(d *Dump) []string {
+	nodes := map[string]bool{}
+	for _, n := range d.Nodes {
+		nodes[n.Name] = true
+	}
+	checks := map[[2]string]CheckRow{}
+	for _, c := range d.Checks {
+		checks[[2]string{c.Node, c.ID}] = c
+	}
+	links := map[[3]string]bool{}
+	for _, m := range d.SChecks {
+		links[m] = true
+	}
+	var out []string
+	for _, s := range d.Sessions {
+		if !nodes[s.Node] {
+			out = append(out, "C04:live-session-on-missing-node:session="+s.ID)
+		}
+		for _, cid := range s.Checks {
+			c, ok := checks[[2]string{s.Node, cid}]
+			switch {
+			case !ok:
+				out = append(out, "C04:live-session-bound-to-missing-check:check="+cid)
+			case c.Status == 2 && !c.SessType:
+				out = append(out, "C04:live-session-bound-to-critical-check:check="+cid)
+			}
+			if !links[[3]string{s.Node, cid, s.ID}] {
+				out = append(out, "C04:session-check-link-missing:check="+cid)
+			}
+		}
+	}
+	return out
+}
+
 // C04 end-of-session clause on consecutive dumps.
 func oracleSessionEnd(before, after *Dump, idx uint64) []string {
 	var out []string
@@ -1125,6 +1169,9 @@ func runHistory(id int, seed int64, mix string, n int, script []Cmd) History {
 
 		// ---- C04
 		for _, o := range oracleLocks(&after) {
+			h.Oracle = append(h.Oracle, fmt.Sprintf("step %d: %s", i, o))
+		}
+		for _, o := range oracleSessionValid(&after) {
 			h.Oracle = append(h.Oracle, fmt.Sprintf("step %d: %s", i, o))
 		}
 		for _, o := range oracleSessionEnd(&before, &after, c.Idx) {
